@@ -132,6 +132,10 @@ def make_replay(prop, R, obs):
         rec["driver_args"] = args
         out, found = run_driver(spec["driver"], args)
         rec["native_output"] = out[-4000:]
+    elif R.job.kind != "native" and R.job.no_dfcc and R.job.harness:
+        out, found = run_native_harness(R.job)
+        rec["driver"] = "native_harness (the harness file compiled natively against the real library)"
+        rec["native_output"] = out[-4000:]
     rec["reproduced"] = found
     if not found:
         rec["note"] = "no-failing-input-found: the obligation below failed in the verifier; native replay did not reproduce"
@@ -167,6 +171,27 @@ def run_driver(driver, args):
     if "NOT-REPRODUCED" in (o or "") and not asan:
         found = False
     return text, found
+
+
+def run_native_harness(job):
+    bdir = os.path.join(core.BUILD, "native_replay")
+    if "objs" not in _libcache:
+        objs, errs = build_native_lib(bdir)
+        _libcache["objs"] = objs
+        _libcache["errs"] = errs
+    objs = [o for o in _libcache["objs"] if os.path.exists(o)]
+    exe = os.path.join(bdir, "nh_" + re.sub(r"\W", "_", job.name))
+    defs = ["-D%s=%s" % (k, v) for k, v in job.defines.items()]
+    cmd = ["gcc", "-O1", "-g", "-fwrapv", "-fsanitize=address", "-mavx2", "-mfma", "-w", "-include",
+           os.path.join(VERIF, "replay", "drivers", "native_harness.h"), "-DENTRY=" + job.entry, "-DNDEBUG"] + defs + \
+          ["-I" + core.SRC, "-I" + os.path.join(VERIF, "contracts"), os.path.join(VERIF, "contracts", job.harness), "-o", exe] + objs + ["-lm"]
+    rc, o, e = run(cmd, timeout=300)
+    if rc != 0:
+        return "native harness build failed: " + (e or "")[-1500:], False
+    os.environ["ASAN_OPTIONS"] = "detect_leaks=0"
+    rc, o, e = run([exe, "300000"], timeout=300)
+    text = "$ " + " ".join(cmd[:3]) + " ... ; " + exe + "\n" + (o or "") + (e or "")[-2000:]
+    return text, ("REPRODUCED: " in (o or "")) or ("ERROR: AddressSanitizer" in (e or ""))
 
 
 def rerun(path):
